@@ -16,19 +16,22 @@ DOC = {
             "_traverse_extension and of one hop of _traverse_from); set(k, b'') is routed to delete and the mutated node becomes the root "
             "(ROUTE1); dict syntax / exists are the method semantics (SIB1); a value slot is returned only when the key is fully consumed "
             "(ABS3); every recursion of insert / delete consumes exactly the matched nibbles (ABS4h, with the helper semantics HELP); lookups "
-            "have no write effect (EFF4); with pruning on, a visited node is scheduled exactly once (TS1 bundle)",
+            "have no write effect (EFF4); with pruning on, a visited node is scheduled exactly once (TS1 bundle); exception classes are unrelated (EXCH), "
+            "identity tests only against singletons (IDENT)",
             "equality with a map model over all histories (value-level correctness of the split / merge arithmetic beyond the offsets)",
             "exception-flow with context-sensitive feasibility; abstract interpretation (Kind/Len/difference bounds) over enumerated paths; effect summaries"),
     "C02": ("embed-vs-hash threshold is len(rlp) < 32 in writer and reader, hashed children are 32 bytes (SIB9); hex-prefix flag tables "
             "equal the Yellow Paper table (SIB6); every non-blank root is hashed and stored, the blank root is the constant (ABS6); a branch "
             "is normalised on every path that may blank a slot (TS3); no empty extension path can be built (TS4); the child of every "
-            "extension that is built is known to be a branch, i.e. extension+leaf/extension are merged (TS9); arity literals 16/17 agree (SIB11)",
+            "extension that is built is known to be a branch, i.e. extension+leaf/extension are merged (TS9); arity literals 16/17 agree (SIB11); "
+            "mutations start from the stored root (ROUTE1); protocol constants by value (DEFAULTS)",
             "root equality with the reference MPT; order independence",
             "writer/reader agreement by interval facts and constant propagation; typestate with Kind summaries over enumerated paths"),
     "C03": ("every visited non-blank node is in the tuple returned or passed down, per-kind stop/descend table, consumed lengths, immutable "
             "empty default accumulator (TS5); the verifier db starts empty / keccak-bound and every proof node is stored through "
             "_set_raw_node, which hashes and stores every non-blank node (EFF3, TS5, ABS6/SIB9); the answer is at_root(root).get(key); only "
-            "BadTrieProof or argument validation can leave get_from_proof (EXC1, EXC5); the prover does not write (EFF4)",
+            "BadTrieProof or argument validation can leave get_from_proof (EXC1, EXC5); the prover does not write (EFF4); the recursion of the "
+            "prover passes its accumulators explicitly (FWD)",
             "that no forged list of well-formed nodes yields a wrong value (cryptographic / value level)",
             "exception-flow with context-sensitive feasibility; def-use binding of db keys; accumulator typestate"),
     "C04": ("only the pruning arm deletes db entries, on every call chain from every public entry, including failure handlers of db "
@@ -40,14 +43,18 @@ DOC = {
     "C05": ("outer state is assigned only on paths after the commit block completed normally, the batch is built and yielded inside it, "
             "the adopted root is the batch's (ORD5); ScratchDB commit discipline (ORD4, EFF1); the batch shares no mutable outer state "
             "(AL2a); no outer ref-count increment after the commit (AL2b); the batch trie is constructed pruning over a ScratchDB of self.db "
-            "(PROV8); do_deletes provenance (PROV4)",
-            "canonical root of the result; 'no intermediate node added' as a value-level fact",
+            "(PROV8); do_deletes provenance (PROV4); the structural part of 'canonical root of the resulting contents': embed threshold and "
+            "root hashing (SIB9, ABS6), extension child is a branch (TS9); pruning bundle of the batch trie (TS1 / PENDG / EFF1); copy() hands "
+            "out nothing shared (COPY)",
+            "canonical root of the result beyond those shape rules; 'no intermediate node added' as a value-level fact",
             "outcome-based path analysis of generator context managers; alias / freshness analysis"),
     "C06": ("every visited node is scheduled exactly once (TS1), every absorbed node is scheduled (TS2); the pending increment is guarded "
             "exactly by {is_pruning, node stored by hash} (PENDG) and the short-root case exactly by {pruning, root not blank, root short, "
             "root in db} (PENDG2); counts are incremented only next to the db write, lowered only in _complete_pruning, an entry is deleted "
             "iff count - pending <= 0 (EFF1); pruning applied on success only, pending set reset on every exit (ORD3); squash shares no "
-            "counts and does not count twice (AL2); deletes reach the real db only through the ScratchDB discipline (ORD4, PROV12)",
+            "counts and does not count twice (AL2); deletes reach the real db only through the ScratchDB discipline (ORD4, PROV12); the "
+            "reference recount regenerate_ref_count is the worklist table root -> skip b'' / embedded / blank hash -> += 1 -> branch: 16 "
+            "children, extension: child (RECOUNT)",
             "exact equality db == reachable set and counts == multiplicities as value-level facts",
             "typestate (must-pass-through, exactly-once) over enumerated paths; guard tables; effect pairing"),
     "C07": ("every db read on the entry points is covered by a KeyError -> Missing* conversion of the right type, nothing is swallowed "
@@ -65,44 +72,52 @@ DOC = {
             "abstract traversal summary (Kind x Len); per-function decision tables; provenance"),
     "C10": ("strictness and operands of the two successor comparisons (REL1); next() shortcut only for None (ITER1); value before "
             "children, leftmost child first, nodes() expands nearest_right(()) (ITER1); keys/values are projections of items/nodes with "
-            "one filter (SIB3); key reconstruction adds exactly the traversed segment (ABS4 instances); frontier-cache coherence (PROV5)",
+            "one filter (SIB3); key reconstruction adds exactly the traversed segment (ABS4 instances); frontier-cache coherence (PROV5); "
+            "next() without an argument means None (DEFAULTS); helper semantics (HELP)",
             "ordering and completeness of the emitted sequence as a value-level fact",
             "relation normal forms on provenance-identified operands; sibling projection comparison"),
     "C11": ("the receiver is never mutated and results are built on fresh sets (AL1); nearest_* return an element of the set at an index "
             "derived from bisect (PROV1); PerfectVisibility / FullDirectionalVisibility only from the emptiness / out-of-range probe (EXC7); "
             "explore = copy - old + {old+seg} unfiltered, duplicate and nested segments refused with the full provenance of the nested check "
-            "(PROV6); serialize / deserialize are duals without post-processing (SIB10); Nibbles conversion of every input (VAL4)",
+            "(PROV6); serialize / deserialize are duals without post-processing (SIB10); Nibbles conversion of every input (VAL4); index "
+            "arithmetic of the nearest_* searches (PROV1b); the two visibility exceptions are unrelated classes (EXCH)",
             "the antichain invariant over all reachable sets, commutation, the distance metric",
             "alias / freshness analysis; exception provenance; dual-pair comparison"),
     "C12": ("only _hash_and_save writes, db[keccak(n)] = n (EFF3); the root is assigned only from the completed _set result (ORD1); "
             "delete / delete_subtrie routing (ROUTE2); decision table of _get and descent agreement (SIB4); slot roles of parsed nodes "
             "(ABS3b); split offsets and bit conventions (ABS4b); no kv->kv chain (TS7); a subtree is erased only under if_delete_subtrie / "
-            "leaf / blank / emptied child (TS8); every NodeOverrideError refusal is reachable (LIVE); dispatch exhaustive (ABS2)",
+            "leaf / blank / emptied child (TS8); every NodeOverrideError refusal is reachable (LIVE); dispatch exhaustive (ABS2, SETTAB); the "
+            "if_delete_subtrie flag is passed on unchanged by every recursion (FWD); no identity test on byte strings (IDENT); defaults "
+            "and protocol constants by value (DEFAULTS)",
             "map model including the NodeOverrideError cases; canonical shape after arbitrary histories as a value-level fact",
             "effect summaries; path ordering; decision tables; typestate; difference-bound feasibility"),
     "C13": ("decision tables of _get, _check_if_branch_exist, _get_branch, _get_trie_nodes and the cross-table of the witness walker, "
             "descent agreement with the reference reader (SIB4); slot roles (ABS3b); the node is yielded before every descent (TS6); only "
             "db-loaded values are yielded (PROV3); the verifier db is keyed by keccak (EFF3); every `return True` of if_branch_valid is "
-            "dominated by the non-empty check and the read at the claimed root, no other refusal (TS6); helpers never write (EFF4)",
+            "dominated by the non-empty check and the read at the claimed root, no other refusal (TS6); helpers never write (EFF4); the claimed "
+            "root is what the verifier trie is opened at (FWD)",
             "sufficiency for every key below a prefix; unforgeability (value level)",
             "decision tables by path enumeration; typestate; effect summaries"),
     "C14": ("delete is set(key, configured default), the default comes from the constructor only (PROV2); from_db forwards its "
             "configuration (PROV13); nothing is ever deleted from the db (EFF1); bit direction and sibling orientation agree in _get / set / "
             "calc_root (SIB5); returned hashes are root->leaf (PROV10); reads precede writes in set (ORD2); blank reads as KeyError in get "
-            "and branch alike (SIB12); dunders / exists (SIB1); db[keccak(n)] = n (EFF3); readers keep no state (EFF4)",
+            "and branch alike (SIB12); dunders / exists (SIB1); db[keccak(n)] = n (EFF3); readers keep no state (EFF4, RSRC); the empty tree is "
+            "depth levels folded up from the default leaf (SMTINIT); the leaf written by set is the given value, calc_root starts at "
+            "keccak(value) (PROV10, SIB5); defaults by value (DEFAULTS); from_db passes its configuration on (FWD)",
             "Merkle-root equality with the full tree",
             "provenance; sibling agreement; def-use binding; effect summaries"),
     "C15": ("the shortness check dominates the only branch write and is the exact bound len(node_updates) <= branch_point (ORD6, REL2); "
             "same-key path writes only the value, other-key path exactly _branch[bp] = node_updates[bp] with bp from the highest differing "
-            "bit (EFF5); copy in, fresh tuple out (AL3); root recomputed on demand (PROV11); update validates key type and length (VAL2); "
+            "bit - a top-down scan must stop at its first hit (EFF5); copy in, fresh tuple out (AL3); root recomputed on demand (PROV11); update validates key type and length (VAL2); "
             "the tree's set / delete return what the proof consumes (PROV2, SIB5/PROV10)",
             "equality with the tree over all update streams",
             "dominance on enumerated paths; difference bounds; per-path effect sets; freshness"),
     "C16": ("hex-prefix tables writer == reader == specification (SIB6); binary node layout writer == reader, type bytes agree (SIB7); "
             "parse_node accepts exactly branch/65, kv/>33, leaf/>1 and rejects everything else with InvalidNode (EXC6); the five node "
             "classifiers agree on every node shape, leaf/extension key duals (SIB8); nibble tables and the range / parity refusals of "
-            "nibbles_to_bytes (PROV9)",
-            "bit-level arithmetic of encode_to_bin / decode_from_bin and of the key-path packing",
+            "nibbles_to_bytes (PROV9); bit order of encode_to_bin / decode_from_bin (weights 128..1, set bit written as 1) and the header "
+            "layout of the key-path packing over the finite case split (SIB7b); type bytes and flags by value (DEFAULTS)",
+            "arithmetic of the packing beyond the case split (arbitrary lengths are covered by the length-mod-4 x padded-length-mod-8 split)",
             "abstract evaluation of path conditions on finite grids; writer/reader layout comparison"),
     "C17": ("the wrapped db is written only on the resumed-normally outcome of the yield, the exception outcome re-raises, the cache is "
             "reset on every exit (ORD4); deletes are guarded by do_deletes and the DELETED marker (PROV12); __setitem__ / __delitem__ "
@@ -113,7 +128,8 @@ DOC = {
     "C18": ("every key / value / root / node parameter of every public entry point that reaches a byte-consuming sink is validated before "
             "that sink and before the first write effect (VAL1); length validation dominates its uses (VAL2); constructor guards: key_size "
             "1..32, no snapshot from a pruning trie, no ref_count for a non-pruning trie (VAL3); Nibbles has exactly three exits and every "
-            "nibble-path input goes through it (VAL4); the transient pending-prune store is reset on every exit (ORD3)",
+            "nibble-path input goes through it (VAL4); the transient pending-prune store is reset on every exit (ORD3); SparseMerkleProof "
+            "construction validates key and value before anything is stored (VAL2); default arguments by value (DEFAULTS)",
             "nothing further within the scope stated in DESIGN.md 4.18",
             "taint-style validation dominance over enumerated paths, interprocedural forwarding"),
 }
